@@ -27,43 +27,46 @@ def arity (s : Sem) : Nat := (want s).length
 /-- **accept_sound.**  Whatever `construct` accepts: every entry of every exposed index view
     (vertex, normal, each texcoord / textangent / texbinormal set) is a row of its source; every
     view has the documented shape; the stream consists of whole corners; the vertex counts of a
-    polylist / polygons add up to the corners; every exposed source has the arity of its semantic. -/
+    polylist / polygons add up to the corners; and, unless the stream is empty (an empty primitive
+    is not validated, see `build`), every exposed source has the arity of its semantic. -/
 theorem accept_sound (spec : PrimSpec) (pv : PrimViews) (h : construct spec = .ok pv) :
     (∀ v ∈ pv.all, InRange v) ∧
     (∀ v ∈ pv.all, DocShape spec.kind v ((stream spec).length / pv.stride)) ∧
     (stream spec).length = (stream spec).length / pv.stride * pv.stride ∧
     ((spec.kind = .polylist ∨ spec.kind = .polygons) →
       pv.vcounts.sum = (stream spec).length / pv.stride) ∧
-    (∀ v ∈ pv.vertex.toList ++ pv.normal.toList ++ pv.textangent ++ pv.texbinormal,
-      v.src.comps.length = 3) ∧
-    (∀ v ∈ pv.texcoord, v.src.comps.length = 2) := by
+    (stream spec ≠ [] →
+      (∀ v ∈ pv.vertex.toList ++ pv.normal.toList ++ pv.textangent ++ pv.texbinormal,
+        v.src.comps.length = 3) ∧
+      (∀ v ∈ pv.texcoord, v.src.comps.length = 2)) := by
   obtain ⟨t, _, _, _, hb⟩ := construct_ok h
   have b := build_ok hb
   have hn := strideOf_pos t
   have hk := itemWidth_pos spec.kind
   have hmod : (stream spec).length % strideOf t = 0 := mod_of_mod_mul b.whole
-  -- every view comes from a checked input
-  have hview : ∀ v ∈ pv.all, ∃ i ∈ checked t, ViewOk spec.kind (strideOf t) (stream spec) i v := by
+  -- shape, length and range of every view, empty primitive or not
+  have hview : ∀ v ∈ pv.all, v.shape = viewShape spec.kind (strideOf t) (stream spec).length ∧
+      v.flat.length = (stream spec).length / strideOf t ∧ InRange v := by
     intro v hv
     by_cases hx : spec.polys.flatten = []
-    · rw [b.empty hx] at hv; cases hv
+    · obtain ⟨i, _, rfl⟩ := b.emptyViews hx v hv
+      have hs : stream spec = [] := hx
+      refine ⟨by rw [hs]; rfl, by rw [hs]; simp [emptyView], ?_⟩
+      intro e he
+      simp [emptyView] at he
     · obtain ⟨i, hi, hf⟩ := allOk_ok_mem (b.views hx).1 v hv
-      exact ⟨i, hi, viewOf_ok hf⟩
+      have ok := viewOf_ok hf
+      exact ⟨ok.shape, ok.length, ok.inRange⟩
   have hsem : ∀ (s : Sem) (l : List Input) (vs : List View), (∀ i ∈ l, i.sem = s) →
       allOk (viewOf spec.kind (strideOf t) spec.polys.flatten) l = .ok vs →
       ∀ v ∈ vs, v.src.comps = want s := by
     intro s l vs hl ha v hv
     obtain ⟨i, hi, hf⟩ := allOk_ok_mem ha v hv
     rw [(viewOf_ok hf).comps, hl i hi]
-  refine ⟨?_, ?_, ?_, ?_, ?_, ?_⟩
+  refine ⟨fun v hv => (hview v hv).2.2, ?_, ?_, ?_, ?_⟩
   · intro v hv
-    obtain ⟨i, _, ok⟩ := hview v hv
-    exact ok.inRange
-  · intro v hv
-    obtain ⟨i, _, ok⟩ := hview v hv
+    obtain ⟨hshape, hlen, _⟩ := hview v hv
     rw [b.stride]
-    have hlen := ok.length
-    have hshape := ok.shape
     cases hkind : spec.kind with
     | triangles =>
       rw [hkind] at hshape
@@ -86,18 +89,10 @@ theorem accept_sound (spec : PrimSpec) (pv : PrimViews) (h : construct spec = .o
   · intro hk'
     rw [b.stride]
     exact b.total hk'
-  · intro v hv
-    by_cases hx : spec.polys.flatten = []
-    · have := b.empty hx
-      have hsub : v ∈ pv.all := by
-        simp only [PrimViews.all, List.mem_append] at hv ⊢
-        rcases hv with ((hv | hv) | hv) | hv
-        · exact Or.inl (Or.inl (Or.inl (Or.inl hv)))
-        · exact Or.inl (Or.inl (Or.inl (Or.inr hv)))
-        · exact Or.inl (Or.inr hv)
-        · exact Or.inr hv
-      rw [this] at hsub; cases hsub
-    · obtain ⟨_, ⟨vi, hvi, vv, hvv, hfv⟩, hnrm, _, htan, hbin⟩ := b.views hx
+  · intro hx
+    obtain ⟨_, ⟨vi, hvi, vv, hvv, hfv⟩, hnrm, htex, htan, hbin⟩ := b.views hx
+    constructor
+    · intro v hv
       simp only [List.mem_append] at hv
       rcases hv with ((hv | hv) | hv) | hv
       · rw [hvv] at hv
@@ -111,14 +106,7 @@ theorem accept_sound (spec : PrimSpec) (pv : PrimViews) (h : construct spec = .o
         rw [this]; rfl
       · have := hsem .texbinormal _ _ (fun i hi => (sel_sub hi).2) hbin v hv
         rw [this]; rfl
-  · intro v hv
-    by_cases hx : spec.polys.flatten = []
-    · have := b.empty hx
-      have hsub : v ∈ pv.all := by
-        simp only [PrimViews.all, List.mem_append]
-        exact Or.inl (Or.inl (Or.inr hv))
-      rw [this] at hsub; cases hsub
-    · obtain ⟨_, _, _, htex, _, _⟩ := b.views hx
+    · intro v hv
       have := hsem .texcoord _ _ (fun i hi => (sel_sub hi).2) htex v hv
       rw [this]; rfl
 
@@ -129,7 +117,7 @@ theorem accept_sound (spec : PrimSpec) (pv : PrimViews) (h : construct spec = .o
 theorem accept_views (spec : PrimSpec) (pv : PrimViews) (h : construct spec = .ok pv) :
     ∃ t, tableOf spec = .ok t ∧ pv.stride = strideOf t ∧
       ∀ v ∈ pv.all, ∃ i ∈ checked t, v.offset = i.offset ∧ v.src.rows = i.src.rows ∧
-        v.src.comps = want i.sem ∧
+        (stream spec ≠ [] → v.src.comps = want i.sem) ∧
         ∀ r, r < (stream spec).length / pv.stride →
           ∃ e, v.flat[r]? = some e ∧ (stream spec)[r * pv.stride + i.offset]? = some e := by
   obtain ⟨t, ht, _, _, hb⟩ := construct_ok h
@@ -137,40 +125,49 @@ theorem accept_views (spec : PrimSpec) (pv : PrimViews) (h : construct spec = .o
   refine ⟨t, ht, b.stride, ?_⟩
   intro v hv
   by_cases hx : spec.polys.flatten = []
-  · rw [b.empty hx] at hv; cases hv
+  · obtain ⟨i, hi, rfl⟩ := b.emptyViews hx v hv
+    have hs : stream spec = [] := hx
+    refine ⟨i, hi, rfl, rfl, fun hc => absurd hs hc, ?_⟩
+    intro r hr
+    rw [hs] at hr
+    simp at hr
   · obtain ⟨i, hi, hf⟩ := allOk_ok_mem (b.views hx).1 v hv
     have ok := viewOf_ok hf
     rw [b.stride]
-    exact ⟨i, hi, ok.offset, ok.rows, ok.comps, ok.entries⟩
+    exact ⟨i, hi, ok.offset, ok.rows, fun _ => ok.comps, ok.entries⟩
 
-/-- **accept_covers.**  Nothing that must be validated is skipped: on a non-empty stream every
-    validated input has its view (so the vertex view exists, the normal view exists iff there is
-    a NORMAL input, and there is one texcoord / textangent / texbinormal view per input);
-    on an empty stream nothing is exposed. -/
+/-- **accept_covers.**  Nothing that must be validated is skipped: the vertex view always
+    exists, the normal view exists iff there is a NORMAL input, there is one texcoord view per
+    TEXCOORD input, and on a non-empty stream one textangent / texbinormal view per input and a
+    view for every validated input (an empty primitive exposes no tangents or binormals). -/
 theorem accept_covers (spec : PrimSpec) (pv : PrimViews) (t : List Input)
     (h : construct spec = .ok pv) (ht : tableOf spec = .ok t) :
-    (stream spec = [] → pv.all = []) ∧
+    pv.vertex.isSome ∧
+    pv.normal.isSome = (sel .normal t).head?.isSome ∧
+    pv.texcoord.length = (sel .texcoord t).length ∧
+    (stream spec = [] → pv.textangent = [] ∧ pv.texbinormal = []) ∧
     (stream spec ≠ [] →
       (∀ i ∈ checked t, ∃ v ∈ pv.all, v.offset = i.offset ∧ v.src.rows = i.src.rows) ∧
-      pv.vertex.isSome ∧
-      pv.normal.isSome = (sel .normal t).head?.isSome ∧
-      pv.texcoord.length = (sel .texcoord t).length ∧
       pv.textangent.length = (sel .textangent t).length ∧
       pv.texbinormal.length = (sel .texbinormal t).length) := by
   obtain ⟨t', ht', _, _, hb⟩ := construct_ok h
   rw [ht] at ht'
   cases ht'
   have b := build_ok hb
-  refine ⟨b.empty, ?_⟩
-  intro hx
-  obtain ⟨hall, ⟨vi, hvi, vv, hvv, hfv⟩, hnrm, htex, htan, hbin⟩ := b.views hx
-  refine ⟨?_, by simp [hvv], ?_, allOk_ok_length htex, allOk_ok_length htan, allOk_ok_length hbin⟩
-  · intro i hi
-    obtain ⟨v, hv, hf⟩ := allOk_ok_mem' hall i hi
-    have ok := viewOf_ok hf
-    exact ⟨v, hv, ok.offset, ok.rows⟩
-  · have := allOk_ok_length hnrm
-    cases hn : pv.normal <;> cases hs : (sel Sem.normal t).head? <;> simp [hn, hs] at this ⊢
+  by_cases hx : spec.polys.flatten = []
+  · have hs : stream spec = [] := hx
+    obtain ⟨hta, hbi, ⟨vi, hvi, hvv⟩, hn, htx⟩ := b.empty hx
+    refine ⟨by simp [hvv], by simp [hn], by simp [htx], fun _ => ⟨hta, hbi⟩, fun hc => absurd hs hc⟩
+  · have hs : stream spec ≠ [] := hx
+    obtain ⟨hall, ⟨vi, hvi, vv, hvv, hfv⟩, hnrm, htex, htan, hbin⟩ := b.views hx
+    refine ⟨by simp [hvv], ?_, allOk_ok_length htex, fun hc => absurd hc hs,
+      fun _ => ⟨?_, allOk_ok_length htan, allOk_ok_length hbin⟩⟩
+    · have := allOk_ok_length hnrm
+      cases hn : pv.normal <;> cases hs' : (sel Sem.normal t).head? <;> simp [hn, hs'] at this ⊢
+    · intro i hi
+      obtain ⟨v, hv, hf⟩ := allOk_ok_mem' hall i hi
+      have ok := viewOf_ok hf
+      exact ⟨v, hv, ok.offset, ok.rows⟩
 
 /-- the ways in which the property calls a specification malformed, on the resolved table -/
 inductive Defect (spec : PrimSpec) (t : List Input) : Prop where
@@ -415,9 +412,10 @@ def pgSpec : PrimSpec :=
     polys := [[0, 0, 1, 1, 2], [0, 1, 1]] }
 example : verdict (construct pgSpec) = some .malformed := by decide
 example : verdict (construct { pgSpec with polys := [[0, 0, 1, 1], [0, 1, 1, 2]] }) = none := by decide
-/-- an empty stream on an empty source is accepted and exposes nothing -/
+/-- an empty stream over empty sources is accepted; vertex, normal and texcoord are zero-row views -/
 example : (match construct { okSpec with sources := [⟨0, ["X", "Y", "Z"]⟩, ⟨0, ["X", "Y", "Z"]⟩, ⟨0, ["S", "T"]⟩], polys := [[]] } with
-    | .ok pv => pv.all.length | .error _ => 1) = 0 := by decide
+    | .ok pv => pv.all.map (fun v => (v.shape, v.flat, v.src.rows)) | .error _ => []) =
+    [([0, 3], [], 0), ([0, 3], [], 0), ([0, 3], [], 0)] := by decide
 /-- the hypotheses of `no_raw` are needed: no inputs at all is Python's `max()` of nothing -/
 example : verdict (construct { okSpec with inputs := [] }) = some (.raw "ValueError") := by decide
 
